@@ -19,9 +19,9 @@ for C in "$@"; do
   out="$T/out.$C"
   VERIF_REPO="$T/repo" VERIF_NO_EVIDENCE=1 "$V/check" "$C" --tier "${VERIF_TIER:-quick}" >"$out" 2>"$out.err"
   e=$?
-  v="$(grep -A1 '^VIOLATION' "$out" | sed -n 2p | cut -c1-260)"
+  v="$(grep -a -A1 '^VIOLATION' "$out" | sed -n 2p | cut -c1-260)"
   [ $e -eq 2 ] && v="$(grep -A3 INFRASTRUCTURE "$out.err" | head -4 | tr '\n' ' ' | cut -c1-300)"
-  n="$(grep -c '^VIOLATION' "$out")"
+  n="$(grep -a -c '^VIOLATION' "$out")"
   echo "$(basename "$(dirname "$P")")/$(basename "$P") $C exit=$e violations=$n $v"
   if [ -n "${VERIF_SAVE_OUT:-}" ]; then mkdir -p "$VERIF_SAVE_OUT"; cp "$out" "$VERIF_SAVE_OUT/$(basename "$(dirname "$P")").$C.out"; cp "$out.err" "$VERIF_SAVE_OUT/$(basename "$(dirname "$P")").$C.err"; fi
   [ $e -ne 0 ] && rc=$e
